@@ -123,7 +123,8 @@ type Record interface {
 // Add records the Record as having being located at the given chunk with the given
 // mapping and placement status.
 func (i *Index) Add(r Record, c bgzf.Chunk, mapped, placed bool) error {
-	if !validIndexPos(r.Start(), i.minShift, i.depth) || !validIndexPos(r.End(), i.minShift, i.depth) {
+	// End is exclusive: the last base covered is End()-1.
+	if !validIndexPos(r.Start(), i.minShift, i.depth) || r.End() < -1 || (r.End() > 0 && !validIndexPos(r.End()-1, i.minShift, i.depth)) {
 		return errors.New("csi: attempt to add record outside indexable range")
 	}
 
